@@ -9,9 +9,19 @@ package main
 // (an update succeeds iff it carries no tag or the tag of the current revision; 409 otherwise) and *gates*
 // every GET / PATCH so that the requests are served in exactly the order given by the case's schedule.
 //
+// Schedule: a list of slots, each a command index `i` or a pair `[i, fault]`.  The k-th slot of command i serves the
+// k-th request of command i WHATEVER it is (so a schedule can also place other commands' requests between requests
+// the unchanged code does not make: a second read, a re-sent update); slots of a command that has ended are skipped;
+// a request for which the schedule has no slot left is served after the whole schedule (and reported as `extra`).
+// Faults (they apply if the request served at the slot is a PATCH, and are ignored on a GET):
+//
+//	lost    process the update as usual (commit iff the tag rule accepts it), then answer 500
+//	drop    process the update as usual, then close the connection without answering
+//	reject  commit nothing and answer 400 with diagnostics (the service's "the definition has errors" reply)
+//
 // Observation (projection): the request log as seen by the backend (who, GET/PATCH, the tag returned/sent as a
-// revision number, accepted/conflict, definition before / body / after as canonical trees), each command's exit
-// status (ok / conflict / err / panic), the final stored definition and revision.  No texts, no timings.
+// revision number, committed or not, the fault, definition before / body / after as canonical trees), each command's
+// exit status (ok / conflict / err / panic), the final stored definition and revision.  No texts, no timings.
 
 import (
 	"context"
@@ -140,8 +150,8 @@ func c14NodeTree(n *yaml.Node) any {
 // ------------------------------------------------------------------------------------------------
 // the gated fake backend
 type c14Step struct {
-	cmd  int
-	kind string // "get" | "patch"
+	cmd   int
+	fault string // "none" | "lost" | "drop" | "reject"
 }
 
 type c14Backend struct {
@@ -151,6 +161,7 @@ type c14Backend struct {
 	def   []byte
 	rev   int
 	etags map[string]int // etag -> revision it names
+	weak  bool           // issue weak validators (W/"..."), as a compressing proxy in front of the service does
 
 	sched []c14Step
 	pos   int
@@ -164,24 +175,40 @@ type c14Backend struct {
 func (b *c14Backend) etag() string {
 	// opaque, unique per revision, different from the revision number
 	t := fmt.Sprintf("\"c14-%d-%d\"", b.rev*7+3, len(b.def))
+	if b.weak {
+		t = "W/" + t
+	}
 	b.etags[t] = b.rev
 	return t
 }
 
-// wait until the schedule says it is (cmd, kind)'s turn; must be called with b.mu held
-func (b *c14Backend) await(cmd int, kind string) bool {
+// wait until the schedule says it is cmd's turn; returns the fault of the slot.  gated = false: the schedule has no
+// slot left for this command (the request is served after the whole schedule) or the case is stuck.
+// Must be called with b.mu held.
+func (b *c14Backend) await(cmd int) (fault string, gated bool) {
 	deadline := time.Now().Add(20 * time.Second)
 	for {
 		for b.pos < len(b.sched) && b.done[b.sched[b.pos].cmd] {
 			b.pos++ // the command ended without making this request
 		}
-		if b.pos < len(b.sched) && b.sched[b.pos] == (c14Step{cmd, kind}) {
-			return true
+		if b.pos < len(b.sched) && b.sched[b.pos].cmd == cmd {
+			f := b.sched[b.pos].fault
+			b.pos++
+			return f, true
+		}
+		mine := false
+		for _, s := range b.sched[b.pos:] {
+			if s.cmd == cmd {
+				mine = true
+			}
+		}
+		if !mine && b.pos >= len(b.sched) {
+			return "none", false
 		}
 		if b.stuck || time.Now().After(deadline) {
 			b.stuck = true
 			b.cond.Broadcast()
-			return false
+			return "none", false
 		}
 		b.cond.Wait()
 	}
@@ -213,14 +240,14 @@ func (b *c14Backend) ServeHTTP(w http.ResponseWriter, r *http.Request) {
 	body, _ := io.ReadAll(r.Body)
 	b.mu.Lock()
 	defer b.mu.Unlock()
+	isGet := r.Method == http.MethodGet && (r.URL.Path == c14EnvPath || r.URL.Path == c14EnvPath+"/decrypt")
 	switch {
-	case r.Method == http.MethodGet && r.URL.Path == c14EnvPath && cmd >= 0 && cmd < len(b.done):
-		if !b.await(cmd, "get") {
+	case isGet && cmd >= 0 && cmd < len(b.done):
+		if _, gated := b.await(cmd); !gated {
 			b.extra = append(b.extra, fmt.Sprintf("ungated get %d", cmd))
-		} else {
-			b.pos++
 		}
-		b.reqs = append(b.reqs, map[string]any{"cmd": cmd, "kind": "get", "tag": b.rev, "def": c14Tree(b.def)})
+		b.reqs = append(b.reqs, map[string]any{"cmd": cmd, "kind": "get", "tag": b.rev, "def": c14Tree(b.def),
+			"dec": r.URL.Path != c14EnvPath})
 		w.Header().Set("ETag", b.etag())
 		w.Header().Set(c14RevHeader, strconv.Itoa(b.rev))
 		w.Header().Set("Content-Type", "application/x-yaml")
@@ -228,10 +255,9 @@ func (b *c14Backend) ServeHTTP(w http.ResponseWriter, r *http.Request) {
 		w.Write(b.def)
 		b.cond.Broadcast()
 	case r.Method == http.MethodPatch && r.URL.Path == c14EnvPath && cmd >= 0 && cmd < len(b.done):
-		if !b.await(cmd, "patch") {
+		fault, gated := b.await(cmd)
+		if !gated {
 			b.extra = append(b.extra, fmt.Sprintf("ungated patch %d", cmd))
-		} else {
-			b.pos++
 		}
 		tag := -1 // no tag
 		if vs, ok := r.Header[http.CanonicalHeaderKey(c14TagHeader)]; ok && len(vs) > 0 && vs[0] != "" {
@@ -242,23 +268,47 @@ func (b *c14Backend) ServeHTTP(w http.ResponseWriter, r *http.Request) {
 			}
 		}
 		e := map[string]any{"cmd": cmd, "kind": "patch", "tag": tag, "before": c14Tree(b.def), "brev": b.rev,
-			"body": c14Tree(body)}
-		if tag == -1 || tag == b.rev {
+			"body": c14Tree(body), "fault": fault}
+		status, reply := 0, ""
+		switch {
+		case fault == "reject":
+			e["status"] = "rejected"
+			status, reply = 400, `{"code":400,"message":"the definition has errors","diagnostics":[{"summary":"c14: scripted diagnostic"}]}`
+		case tag == -1 || tag == b.rev:
 			b.def = body
 			b.rev++
 			e["status"] = "ok"
-			w.Header().Set(c14RevHeader, strconv.Itoa(b.rev))
-			w.WriteHeader(200)
-		} else {
+			status = 200
+		default:
 			e["status"] = "conflict"
-			w.Header().Set("Content-Type", "application/json")
-			w.WriteHeader(409)
-			w.Write([]byte(`{"code":409,"message":"Conflict: the environment has changed since it was read"}`))
+			status, reply = 409, `{"code":409,"message":"Conflict: the environment has changed since it was read"}`
 		}
 		e["after"] = c14Tree(b.def)
 		e["arev"] = b.rev
 		b.reqs = append(b.reqs, e)
 		b.cond.Broadcast()
+		switch fault {
+		case "lost":
+			w.Header().Set("Content-Type", "application/json")
+			w.WriteHeader(500)
+			w.Write([]byte(`{"code":500,"message":"internal server error"}`))
+		case "drop":
+			if hj, ok := w.(http.Hijacker); ok {
+				if conn, _, err := hj.Hijack(); err == nil {
+					conn.Close()
+					return
+				}
+			}
+			panic(http.ErrAbortHandler)
+		default:
+			if status == 200 {
+				w.Header().Set(c14RevHeader, strconv.Itoa(b.rev))
+			} else {
+				w.Header().Set("Content-Type", "application/json")
+			}
+			w.WriteHeader(status)
+			w.Write([]byte(reply))
+		}
 	case r.Method == http.MethodPost && r.URL.Path == "/api/esc/environments/org/yaml/check":
 		// `env edit` asks for the evaluated environment to show it below the definition; not part of the protocol
 		w.Header().Set("Content-Type", "application/json")
@@ -337,6 +387,7 @@ func c14(c map[string]any) map[string]any {
 	}
 
 	b := &c14Backend{etags: map[string]int{}, done: make([]bool, len(ops))}
+	b.weak, _ = c["weak"].(bool)
 	b.cond = sync.NewCond(&b.mu)
 	// prior history: revision 1 is the freshly created (empty) environment, every entry is one more revision
 	b.rev = 1
@@ -357,41 +408,60 @@ func c14(c map[string]any) map[string]any {
 	}
 
 	type spec struct {
-		args  []string
-		stdin string
-		steps []string
+		args   []string
+		stdin  string
+		enters int // interactive edit: ENTER presses waiting on its terminal
 	}
 	specs := make([]spec, len(ops))
 	for i, o := range ops {
 		m, _ := o.(map[string]any)
 		switch str(m, "k") {
 		case "set":
-			specs[i] = spec{args: []string{"env", "set", "org/proj/env", str(m, "path"), str(m, "val")}, steps: []string{"get", "patch"}}
+			specs[i] = spec{args: []string{"env", "set", "org/proj/env", str(m, "path"), str(m, "val")}}
 		case "rm":
-			specs[i] = spec{args: []string{"env", "rm", "org/proj/env", str(m, "path")}, steps: []string{"get", "patch"}}
+			specs[i] = spec{args: []string{"env", "rm", "org/proj/env", str(m, "path")}}
 		case "edit":
 			ed := fmt.Sprintf("%s set %s %s", editor, str(m, "key"), str(m, "val"))
-			specs[i] = spec{args: []string{"env", "edit", "org/proj/env", "--editor", ed}, steps: []string{"get", "patch"}}
+			// the person has `enters` ENTER presses for "Press ENTER to continue editing or ^D to exit"
+			enters := 0
+			if v, ok := m["enters"]; ok {
+				if n, err := strconv.Atoi(fmt.Sprint(v)); err == nil && n >= 0 && n <= 8 {
+					enters = n
+				}
+			}
+			specs[i] = spec{args: []string{"env", "edit", "org/proj/env", "--editor", ed}, enters: enters}
+			if sec, _ := m["secrets"].(bool); sec {
+				specs[i].args = append(specs[i].args, "--show-secrets")
+			}
 		case "abort":
 			ed := fmt.Sprintf("%s abort", editor)
-			specs[i] = spec{args: []string{"env", "edit", "org/proj/env", "--editor", ed}, steps: []string{"get", "patch"}}
+			specs[i] = spec{args: []string{"env", "edit", "org/proj/env", "--editor", ed}}
 		case "file":
-			specs[i] = spec{args: []string{"env", "edit", "org/proj/env", "--file", "-"}, stdin: str(m, "yaml"), steps: []string{"patch"}}
+			specs[i] = spec{args: []string{"env", "edit", "org/proj/env", "--file", "-"}, stdin: str(m, "yaml")}
 		default:
 			return map[string]any{"res": "badop"}
 		}
 	}
-	// schedule: the k-th occurrence of command i is its k-th step
-	seen := make([]int, len(ops))
+	// schedule: the k-th slot of command i serves its k-th request; a slot is `i` or `[i, fault]`
 	for _, x := range schedRaw {
+		fault := "none"
+		if pair, ok := x.([]any); ok {
+			if len(pair) != 2 {
+				return map[string]any{"res": "badsched"}
+			}
+			x = pair[0]
+			fault, _ = pair[1].(string)
+		}
+		switch fault {
+		case "none", "lost", "drop", "reject":
+		default:
+			return map[string]any{"res": "badsched"}
+		}
 		n, err := strconv.Atoi(fmt.Sprint(x))
 		if err != nil || n < 0 || n >= len(ops) {
 			return map[string]any{"res": "badsched"}
 		}
-		if seen[n] < len(specs[n].steps) {
-			b.sched = append(b.sched, c14Step{n, specs[n].steps[seen[n]]})
-		}
-		seen[n]++
+		b.sched = append(b.sched, c14Step{n, fault})
 	}
 
 	srv := httptest.NewServer(b)
@@ -410,9 +480,23 @@ func c14(c map[string]any) map[string]any {
 					out[i] = "panic"
 				}
 			}()
+			// the interactive edit hands its stdin to the editor process (cmd.Stdin = esc.stdin): with anything but an
+			// *os.File os/exec would drain it into the child, so the "terminal" is a pipe holding the ENTER presses
+			var stdin io.Reader = strings.NewReader(specs[i].stdin)
+			if specs[i].enters > 0 {
+				pr, pw, err := os.Pipe()
+				if err != nil {
+					out[i] = "other"
+					return
+				}
+				defer pr.Close()
+				pw.Write([]byte(strings.Repeat("\n", specs[i].enters)))
+				pw.Close()
+				stdin = pr
+			}
 			root := cli.New(&cli.Options{
 				UserAgent:       fmt.Sprintf("c14-cmd-%d", i),
-				Stdin:           strings.NewReader(specs[i].stdin),
+				Stdin:           stdin,
 				Stdout:          io.Discard,
 				Stderr:          io.Discard,
 				Colors:          colors.Never,
